@@ -17,6 +17,7 @@ import (
 	"sort"
 	"strconv"
 	"strings"
+	"sync"
 	"time"
 	"unicode/utf8"
 
@@ -318,11 +319,11 @@ func modelPass1(trees []string, pairs [][2]string, outDir string) ([]string, []b
 
 func modelPass1Chunk(trees []string, pairs [][2]string, outDir string, k int) ([]string, []bool, []int, error) {
 	var b strings.Builder
-	b.WriteString("From GC Require Import Base Model_Regex Model_RegexSimplify Proofs_RegexSimplify Proofs_RegexWalk Proofs_RegexWalkS.\n")
+	b.WriteString("From GC Require Import Base Model_Regex Model_RegexSimplify Proofs_RegexSimplify Proofs_RegexWalk Proofs_RegexWalkS Model_RegexText.\n")
 	b.WriteString("Definition trees : list sx := [\n")
 	b.WriteString(strings.Join(trees, ";\n"))
 	b.WriteString("\n].\nDefinition R := Eval vm_compute in map (fun t => str_bytes (simplify1 t)) trees.\nPrint R.\n")
-	b.WriteString("Definition FRAG := Eval vm_compute in map (fun t => ((if in_fragment t && avoids_defects t then 1 else 0) + (if pass_ok t then 2 else 0))%N) trees.\nPrint FRAG.\n")
+	b.WriteString("Definition FRAG := Eval vm_compute in map (fun t => ((if in_fragment t && avoids_defects t then 1 else 0) + (if pass_ok t then 2 else 0))%N) trees.\nPrint FRAG.\nDefinition TT := Eval vm_compute in fold_left N.add (map text_tie_count trees) 0%N.\nPrint TT.\n")
 	b.WriteString("Definition pairs : list (sx * sx) := [\n")
 	for i, pr := range pairs {
 		if i > 0 {
@@ -370,6 +371,12 @@ func modelPass1Chunk(trees []string, pairs [][2]string, outDir string, k int) ([
 	}
 	if len(frag) != len(trees) {
 		return nil, nil, nil, fmt.Errorf("round 1: %d fragment flags for %d trees", len(frag), len(trees))
+	}
+	if m := reTT.FindStringSubmatch(out); m != nil {
+		n, _ := strconv.Atoi(m[1])
+		textTieMu.Lock()
+		textTieNodes += n
+		textTieMu.Unlock()
 	}
 	s := out[i+3 : fi]
 	if j := strings.LastIndex(s, ":"); j >= 0 {
@@ -488,6 +495,12 @@ func modelFinal(ins [][2]string, outDir string) ([]bool, error) {
 	}
 	return all, nil
 }
+
+var (
+	reTT         = regexp.MustCompile(`TT = (\d+)`)
+	textTieMu    sync.Mutex
+	textTieNodes int
+)
 
 func tailStr(s string, n int) string {
 	if len(s) > n {
@@ -1077,6 +1090,7 @@ func zlist(v []int) string {
 func Run(tier string, seed int64, outDir string) *common.Meta {
 	meta := &common.Meta{Property: "C11", Distribution: map[string]interface{}{}, CaseFiles: []string{}}
 	thorough := tier == "thorough"
+	textTieNodes = 0
 	r, err := newRunner()
 	if err != nil {
 		meta.TieBroken = append(meta.TieBroken, "cannot build a checker context: "+err.Error())
@@ -1236,6 +1250,7 @@ func Run(tier string, seed int64, outDir string) *common.Meta {
 		}
 	}
 	meta.Distribution["patterns_covered_by_fragment_theorem"] = nFrag
+	meta.Distribution["class_nodes_and_literal_runs_reparsed_by_text_model"] = textTieNodes
 	meta.Distribution["rewrites_covered_by_fragment_theorem_pass1"] = nFragRw
 	meta.Distribution["patterns_covered_by_the_earlier_capture_free_flag_free_theorem"] = nPlain
 	meta.Distribution["rewrites_covered_by_the_earlier_capture_free_flag_free_theorem_pass1"] = nPlainRw
@@ -1269,7 +1284,7 @@ func Run(tier string, seed int64, outDir string) *common.Meta {
 	}
 
 	// 4. simplifier cases
-	hdr := `From GC Require Import Base Model_Regex Model_RegexSimplify Proofs_RegexSimplify Proofs_RegexWalk Proofs_RegexWalkS.
+	hdr := `From GC Require Import Base Model_Regex Model_RegexSimplify Proofs_RegexSimplify Proofs_RegexWalk Proofs_RegexWalkS Model_RegexText.
 Record case := { k_pat : string; k_tree : option sx; k_c1 : string; k_tree2 : option sx; k_obs : option string;
                  k_tree3 : option sx; k_cert : bool; k_frag : bool; k_fin : bool; k_call : string }.
 Definition ostr_eqb (a b : option string) : bool :=
@@ -1281,6 +1296,8 @@ Definition case_ok (k : case) : bool :=
   | None => match k_obs k with None => true | Some _ => false end
   | Some t =>
       String.eqb (print t) (k_pat k)                                   (* the dump is the tree of this text *)
+      && text_tie_ok t                   (* Model_RegexText reads every class / literal run of the tree back from its Value *)
+      && match k_tree2 k with Some t2 => text_tie_ok t2 | None => true end
       && String.eqb (simplify1 t) (k_c1 k)                              (* pass 1 as used for k_tree2 *)
       && String.eqb (pr_list (fst (walk_a true t))) (simp_text t)            (* tree version prints the text version *)
       && Nat.eqb (snd (walk_a true t)) (simp_score t)
